@@ -1,1 +1,273 @@
-//! (placeholder; filled in by the check that owns it)
+//! Reference interpreter for Breakpad `STACK CFI` records (property C06).
+//!
+//! Written from the module documentation at the top of
+//! `breakpad-symbols/src/sym_file/walker.rs` ("# STACK CFI", "## STACK CFI registers",
+//! "## STACK CFI expressions") and from the statement of property C06 — not from the
+//! evaluator below that documentation. Where the documentation leaves a point open the
+//! reference answers `Open` (nothing is compared) instead of guessing:
+//!
+//! * `/` and `%` with an operand >= 2^63: the documentation does not say whether the
+//!   operands are signed. The result is an *unspecified value* that taints what is computed
+//!   from it; a definite failure later in the same expression (`.undef`, stack underflow,
+//!   zero divisor, non-power-of-two alignment) is still a definite failure.
+//! * syntactically malformed rule lines (empty EXPR, first token not a `REG:`): `Malformed`.
+//!
+//! Documented semantics encoded here:
+//! * a record applies to `[init.address, init.address + size)`; addresses are module relative;
+//! * final rules = INIT rules, then every delta record of that INIT whose address is
+//!   `<=` the lookup address, applied in address order; a later `REG:` overrides an earlier one
+//!   (also inside one line); `$reg` and `reg` name the same register;
+//! * `.cfa` and `.ra` must have rules; `.cfa` is evaluated first and cannot use `.cfa`; if
+//!   either fails the whole unwind fails;
+//! * every other register is set from its rule, or marked unknown when its rule fails;
+//! * expressions are postfix over a stack of 64-bit values, wrapping arithmetic, the right-hand
+//!   side is popped first; exactly one value must remain; `.undef`, stack underflow, zero
+//!   divisor, an alignment that is not a power of two, unreadable memory, unknown registers
+//!   and unknown tokens (which includes `.ra` in EXPR position and literals outside i64) make
+//!   the rule fail.
+use std::collections::BTreeMap;
+
+/// What the reference needs to know about the callee frame and the walker.
+pub trait CfiEnv {
+    /// value of a callee register by bare name (no `$`), `None` if unknown or not valid
+    fn callee_reg(&self, name: &str) -> Option<u64>;
+    /// register-sized word of stack memory
+    fn mem(&self, addr: u64) -> Option<u64>;
+}
+
+#[derive(Clone, Copy, Debug, PartialEq, Eq, Hash)]
+pub enum Val {
+    Ok(u64),
+    /// the rule fails (documented)
+    Fail,
+    /// the documentation does not determine the outcome
+    Open,
+}
+
+/// `-?[0-9]+` within i64, per "a signed decimal integer (limited to i64 precision)".
+pub fn literal(tok: &str) -> Option<u64> {
+    let (neg, digits) = match tok.strip_prefix('-') {
+        Some(d) => (true, d),
+        None => (false, tok),
+    };
+    if digits.is_empty() || !digits.bytes().all(|b| b.is_ascii_digit()) || digits.len() > 30 {
+        return None;
+    }
+    let mut v: i128 = 0;
+    for b in digits.bytes() {
+        v = v * 10 + (b - b'0') as i128;
+    }
+    if neg {
+        v = -v;
+    }
+    if v < i64::MIN as i128 || v > i64::MAX as i128 {
+        return None;
+    }
+    Some(v as i64 as u64)
+}
+
+const TOP: u64 = 1 << 63;
+
+/// Evaluate one postfix expression. `cfa` is `None` while the CFA rule itself is evaluated.
+pub fn eval_expr(tokens: &[&str], env: &dyn CfiEnv, cfa: Option<u64>) -> Val {
+    // None on the stack = an unspecified value (signedness of / and %)
+    let mut st: Vec<Option<u64>> = Vec::new();
+    for &t in tokens {
+        match t {
+            "+" | "-" | "*" | "/" | "%" | "@" => {
+                let Some(r) = st.pop() else { return Val::Fail };
+                let Some(l) = st.pop() else { return Val::Fail };
+                let v = match t {
+                    "+" => l.zip(r).map(|(l, r)| l.wrapping_add(r)),
+                    "-" => l.zip(r).map(|(l, r)| l.wrapping_sub(r)),
+                    "*" => l.zip(r).map(|(l, r)| l.wrapping_mul(r)),
+                    "/" | "%" => match r {
+                        Some(0) => return Val::Fail,
+                        None => return Val::Open, // may or may not be zero
+                        Some(r) => match l {
+                            Some(l) if l < TOP && r < TOP => Some(if t == "/" { l / r } else { l % r }),
+                            _ => None,
+                        },
+                    },
+                    _ => match r {
+                        // "@": truncate lhs to a multiple of rhs; rhs must be a power of two
+                        None => return Val::Open,
+                        Some(r) => {
+                            if r.count_ones() != 1 {
+                                return Val::Fail;
+                            }
+                            l.map(|l| l - (l % r))
+                        }
+                    },
+                };
+                st.push(v);
+            }
+            "^" => {
+                let Some(p) = st.pop() else { return Val::Fail };
+                let Some(p) = p else { return Val::Open };
+                match env.mem(p) {
+                    Some(v) => st.push(Some(v)),
+                    None => return Val::Fail,
+                }
+            }
+            ".cfa" => match cfa {
+                Some(c) => st.push(Some(c)),
+                None => return Val::Fail,
+            },
+            ".undef" => return Val::Fail,
+            _ => {
+                if let Some(v) = literal(t) {
+                    st.push(Some(v));
+                } else {
+                    let name = t.strip_prefix('$').unwrap_or(t);
+                    match env.callee_reg(name) {
+                        Some(v) => st.push(Some(v)),
+                        None => return Val::Fail,
+                    }
+                }
+            }
+        }
+    }
+    if st.len() != 1 {
+        return Val::Fail;
+    }
+    match st[0] {
+        Some(v) => Val::Ok(v),
+        None => Val::Open,
+    }
+}
+
+#[derive(Clone, Debug)]
+pub struct CfiRecord {
+    pub address: u64,
+    pub size: u64,
+    pub init_rules: String,
+    /// delta records in FILE order (the reference orders them by address itself)
+    pub deltas: Vec<(u64, String)>,
+}
+
+#[derive(Clone, Copy, Debug, PartialEq, Eq, Hash, PartialOrd, Ord)]
+pub enum RegOut {
+    Set(u64),
+    /// rule failed: the register is unknown in the caller
+    Cleared,
+    /// outcome of this register's rule is not determined by the documentation
+    Open,
+}
+
+#[derive(Clone, Debug, PartialEq, Eq, Hash)]
+pub enum CfiExpect {
+    /// no record covers the address, or `.cfa` / `.ra` missing or failing: unwinding fails
+    Fail(&'static str),
+    /// a rule line in effect is syntactically malformed: only "no panic; if it succeeds, cfa
+    /// and ra were set" is required
+    Malformed,
+    /// outcome of the cfa or ra rule not determined by the documentation
+    Open,
+    Some { cfa: u64, ra: u64, regs: BTreeMap<String, RegOut> },
+}
+
+/// Split one rules line into (register, expression tokens); `None` = malformed.
+pub fn parse_rules(line: &str) -> Option<Vec<(String, Vec<&str>)>> {
+    let mut out: Vec<(String, Vec<&str>)> = Vec::new();
+    for t in line.split_ascii_whitespace() {
+        if let Some(r) = t.strip_suffix(':') {
+            if let Some(last) = out.last() {
+                if last.1.is_empty() {
+                    return None;
+                }
+            }
+            let name = if r == ".cfa" || r == ".ra" { r.to_string() } else { r.strip_prefix('$').unwrap_or(r).to_string() };
+            out.push((name, Vec::new()));
+        } else {
+            out.last_mut()?.1.push(t);
+        }
+    }
+    match out.last() {
+        None => None,
+        Some(l) if l.1.is_empty() => None,
+        _ => Some(out),
+    }
+}
+
+/// The rule lines in effect at `rel` (module-relative), INIT first, deltas in address order.
+/// `Err(())` when the delta order is not defined (two applicable deltas share an address).
+pub fn lines_in_effect(rec: &CfiRecord, rel: u64) -> Result<Vec<&str>, ()> {
+    let mut ds: Vec<(u64, &str)> = rec.deltas.iter().filter(|d| d.0 <= rel).map(|d| (d.0, d.1.as_str())).collect();
+    ds.sort_by_key(|d| d.0); // stable; ties are rejected below
+    for w in ds.windows(2) {
+        if w[0].0 == w[1].0 {
+            return Err(());
+        }
+    }
+    let mut v = vec![rec.init_rules.as_str()];
+    v.extend(ds.iter().map(|d| d.1));
+    Ok(v)
+}
+
+/// Full unwind step for a module-relative lookup address.
+pub fn unwind(records: &[CfiRecord], rel: u64, env: &dyn CfiEnv) -> CfiExpect {
+    let mut hit = records.iter().filter(|r| r.size > 0 && rel >= r.address && rel - r.address < r.size);
+    let Some(rec) = hit.next() else { return CfiExpect::Fail("no-record") };
+    assert!(hit.next().is_none(), "reference: overlapping INIT records are outside the modelled space");
+    let Ok(lines) = lines_in_effect(rec, rel) else { return CfiExpect::Open };
+    let mut rules: BTreeMap<String, Vec<&str>> = BTreeMap::new();
+    let mut parsed = vec![];
+    for l in &lines {
+        match parse_rules(l) {
+            Some(p) => parsed.push(p),
+            None => return CfiExpect::Malformed,
+        }
+    }
+    for p in parsed {
+        for (r, e) in p {
+            rules.insert(r, e);
+        }
+    }
+    let Some(cfa_rule) = rules.remove(".cfa") else { return CfiExpect::Fail("no-cfa-rule") };
+    let Some(ra_rule) = rules.remove(".ra") else { return CfiExpect::Fail("no-ra-rule") };
+    let cfa = match eval_expr(&cfa_rule, env, None) {
+        Val::Ok(v) => v,
+        Val::Fail => return CfiExpect::Fail("cfa-rule-fails"),
+        Val::Open => return CfiExpect::Open,
+    };
+    let ra = match eval_expr(&ra_rule, env, Some(cfa)) {
+        Val::Ok(v) => v,
+        Val::Fail => return CfiExpect::Fail("ra-rule-fails"),
+        Val::Open => return CfiExpect::Open,
+    };
+    let mut regs = BTreeMap::new();
+    for (r, e) in rules {
+        let o = match eval_expr(&e, env, Some(cfa)) {
+            Val::Ok(v) => RegOut::Set(v),
+            Val::Fail => RegOut::Cleared,
+            Val::Open => RegOut::Open,
+        };
+        regs.insert(r, o);
+    }
+    CfiExpect::Some { cfa, ra, regs }
+}
+
+// ---------------------------------------------------------------------------------------------
+// tiny executor for the real `walk_stack` (all futures involved are ready at first poll unless
+// they yield; a no-op waker and a poll loop are enough)
+
+pub fn block_on<F: std::future::Future>(f: F) -> F::Output {
+    use std::sync::Arc;
+    use std::task::{Context, Poll, Wake, Waker};
+    struct Noop;
+    impl Wake for Noop {
+        fn wake(self: Arc<Self>) {}
+    }
+    let waker = Waker::from(Arc::new(Noop));
+    let mut cx = Context::from_waker(&waker);
+    let mut f = std::pin::pin!(f);
+    let mut spins = 0u64;
+    loop {
+        if let Poll::Ready(v) = f.as_mut().poll(&mut cx) {
+            return v;
+        }
+        spins += 1;
+        assert!(spins < 10_000_000, "block_on: future never completes");
+    }
+}
